@@ -161,7 +161,7 @@ func TestC05ReaderForms(t *testing.T) {
 
 func TestC01WriterForms(t *testing.T) {
 	rec := evid.New(t, "C01", "every way of obtaining a frame writer (Writer, NewWriter(WriterConf), ReadWriter, NewReadWriter(ReadWriterConf)) writes the same generated sequence of frames (WriteFrame) and dialect messages (WriteMessage, generated version / system / component / link id, with and without a key): without a key the byte streams must be identical to the reference layout of each frame; with a key every emitted frame must carry the configured ids and link id and a signature that verifies; non-trivial = sequence mixing frames and messages; distinct by hash of the emitted bytes")
-	rec.Require("with-key", "without-key", "v1-output", "frames+messages")
+	rec.Require("with-key", "without-key", "v1-output", "frames+messages", "one-message-value-in-several-frames")
 	common, _ := dialects(t)
 	evid.Check(t, rec, evid.N(4000, 20000), func(t *rapid.T) {
 		readBufSize = 512
@@ -180,16 +180,23 @@ func TestC01WriterForms(t *testing.T) {
 			ver = frame.V2
 		}
 		type op struct {
-			fr  *ref.Frame
-			msg bool
+			fr    *ref.Frame
+			msg   bool
+			typed bool // WriteFrame of a frame that carries the application's message value itself, not raw bytes
 		}
 		n := rapid.IntRange(1, 12).Draw(t, "n")
 		var ops []op
 		hasF, hasM := false, false
+		hasTyped := 0
 		for i := 0; i < n; i++ {
 			if rapid.Bool().Draw(t, "is_message") {
 				ops = append(ops, op{msg: true})
 				hasM = true
+			} else if rapid.IntRange(0, 3).Draw(t, "typed_frame") == 0 {
+				f := ref.Frame{V2: rapid.Bool().Draw(t, "tf_v2"), Seq: rapid.Byte().Draw(t, "tf_seq"), Sys: rapid.Byte().Draw(t, "tf_sys"), Comp: rapid.Byte().Draw(t, "tf_comp")}
+				ops = append(ops, op{fr: &f, typed: true})
+				hasF = true
+				hasTyped++
 			} else {
 				f := gen.RawFrame(t, gen.FrameOpts{})
 				ops = append(ops, op{fr: &f})
@@ -241,6 +248,17 @@ func TestC01WriterForms(t *testing.T) {
 					reflect.ValueOf(hb).Elem().FieldByName("CustomMode").SetUint(uint64(0x01020300 + i))
 					wantPayloads = append(wantPayloads, common.layouts[0].Encode(hb, v2))
 					err = writeMsg()
+				} else if o.typed {
+					reflect.ValueOf(hb).Elem().FieldByName("CustomMode").SetUint(uint64(0x0A0B0C00 + i))
+					o.fr.ID = 0
+					o.fr.Payload = common.layouts[0].Encode(hb, o.fr.V2)
+					o.fr.Checksum = o.fr.ChecksumFor(common.layouts[0].CRCExtra)
+					wantPayloads = append(wantPayloads, nil)
+					if o.fr.V2 {
+						err = writeFrame(&frame.V2Frame{SequenceNumber: o.fr.Seq, SystemID: o.fr.Sys, ComponentID: o.fr.Comp, Message: hb, Checksum: o.fr.Checksum})
+					} else {
+						err = writeFrame(&frame.V1Frame{SequenceNumber: o.fr.Seq, SystemID: o.fr.Sys, ComponentID: o.fr.Comp, Message: hb, Checksum: o.fr.Checksum})
+					}
 				} else {
 					wantPayloads = append(wantPayloads, nil)
 					err = writeFrame(gen.ToLib(*o.fr))
@@ -277,7 +295,7 @@ func TestC01WriterForms(t *testing.T) {
 				}
 				if !o.msg {
 					if !bytes.Equal(calls[i], o.fr.Bytes()) {
-						fail("item %d: WriteFrame emitted %x, the frame's layout is %x", i, calls[i], o.fr.Bytes())
+						fail("item %d: WriteFrame (frame carrying the application's own message value: %v) emitted %x, the frame's layout is %x", i, o.typed, calls[i], o.fr.Bytes())
 					}
 					continue
 				}
@@ -316,6 +334,9 @@ func TestC01WriterForms(t *testing.T) {
 		}
 		if hasF && hasM {
 			cls = append(cls, "frames+messages")
+		}
+		if hasTyped >= 2 {
+			cls = append(cls, "one-message-value-in-several-frames")
 		}
 		var all []byte
 		for _, c := range first {
